@@ -243,7 +243,8 @@ func unquote(s string) (string, bool) {
 // beginning of s, or 0.
 func class(s string) int {
 	if s != "" && strings.IndexByte(".=:", s[0]) != -1 {
-		if i := strings.Index(s[1:], s[:1]+"]"); i != -1 {
+		// it is closed before the bracket expression is
+		if i := strings.Index(s[1:], s[:1]+"]"); i != -1 && strings.IndexByte(s[1:1+i], ']') == -1 {
 			return 1 + i + 2
 		}
 	}
